@@ -104,6 +104,13 @@ func c11Jobs(seed int64, label string, idx, n int) []c11Job {
 		var pc parseCase
 		if r.Chance(1, 8) {
 			pc = parseCase{c11Deep(r), pickVersion(r), "deep"}
+		} else if r.Chance(1, 10) {
+			// PHP 5 compile-time errors (reported from grammar actions, with their own error values) at PRNG places
+			src := "<?php" + strings.Repeat("\n", r.Intn(6)) + strings.Repeat(" $x;", r.Intn(4))
+			for k, m := 0, r.Range(1, 3); k < m; k++ {
+				src += " " + gen.SemanticErrors5[r.Intn(len(gen.SemanticErrors5))] + strings.Repeat("\n", r.Intn(3))
+			}
+			pc = parseCase{[]byte(src), gen.Versions5[r.Intn(len(gen.Versions5))], "php5-semantic-errors"}
 		} else {
 			pc = genParseCase(seed, label+"job", idx*64+i, 30)
 		}
@@ -227,6 +234,9 @@ func c11Predecessors(c *core.Ctx, idx int) {
 	if len(x.Src) > 6000 {
 		x.Src = x.Src[:6000]
 	}
+	if r.Chance(1, 8) {
+		x = parseCase{[]byte("<?php " + strings.Repeat("$y;\n", r.Intn(5)) + gen.SemanticErrors5[r.Intn(len(gen.SemanticErrors5))] + " $z;"), gen.Versions5[r.Intn(len(gen.Versions5))], "php5-semantic-errors"}
+	}
 	cb := r.Chance(3, 4)
 	render := func() string {
 		pr := obs.Parse(append([]byte(nil), x.Src...), x.Ver, cb)
@@ -237,6 +247,16 @@ func c11Predecessors(c *core.Ctx, idx int) {
 	}
 	c.Inflight(x.Src, "C11 predecessors")
 	want := render()
+	// the first result is also HELD while the later parses run: what it says must not change either
+	heldSrc := append([]byte(nil), x.Src...)
+	held := obs.Parse(heldSrc, x.Ver, true)
+	renderHeld := func() string {
+		if held.Panic != nil {
+			return "panic"
+		}
+		return "errors:" + strings.Join(obs.ErrStrings(held.Errors), "|") + "\n" + obs.Fingerprint(held.Root, false)
+	}
+	heldWant := renderHeld()
 	var preds [][]byte
 	var kinds []string
 	add := func(kind string, y []byte) { preds = append(preds, y); kinds = append(kinds, kind) }
@@ -275,6 +295,11 @@ func c11Predecessors(c *core.Ctx, idx int) {
 			}
 		}
 	}
+	if obs.Fam(x.Ver) == 5 {
+		for i := 0; i < 2; i++ {
+			add("php5-semantic-error", []byte("<?php"+strings.Repeat("\n ", r.Intn(8))+gen.SemanticErrors5[r.Intn(len(gen.SemanticErrors5))]))
+		}
+	}
 	for i := 0; i < 2; i++ {
 		add("unrelated", genParseCase(c.P.Seed, "C11predY", idx*8+i, 50).Src)
 	}
@@ -288,6 +313,10 @@ func c11Predecessors(c *core.Ctx, idx int) {
 		got := render()
 		c.Add("reparses_after_a_predecessor", 1)
 		c.Cover("predecessor_kind", kinds[i])
+		if now := renderHeld(); now != heldWant {
+			c.Violation("sequential|held-result-changed|"+kinds[i], fmt.Sprintf("the errors and tree returned by an earlier Parse call changed while later Parse calls ran (last: %s %s): %s", kinds[i], obsQuote(y, 200), obs.FirstDiff(heldWant, now)), core.W(x.Src, x.Ver).With("later_input", obsQuote(y, 400)))
+			return
+		}
 		if got != want {
 			c.Violation("sequential|predecessor-dependent|"+kinds[i], fmt.Sprintf("Parse(X) after Parse(Y) differs from the first Parse(X) (Y: %s %s): %s", kinds[i], obsQuote(y, 200), obs.FirstDiff(want, got)), core.W(x.Src, x.Ver).With("predecessor", obsQuote(y, 400)).With("predecessor_version", ver))
 			return
